@@ -704,9 +704,11 @@ class Server(base_server.BaseServer):
             elif pkt.packet_type == packet.BINARY_EVENT or \
                     pkt.packet_type == packet.BINARY_ACK:
                 if eio_sid in self.environ or any(
-                        self.manager.sid_from_eio_sid(eio_sid, n)
+                        self.manager.is_connected(
+                            self.manager.sid_from_eio_sid(eio_sid, n), n)
                         for n in self.manager.get_namespaces()):
-                    # (nothing is kept for a connection that has ended)
+                    # (nothing is kept for a connection that has ended, also
+                    # when one of its clients is still being disconnected)
                     self._binary_packet[eio_sid] = pkt
             elif pkt.packet_type == packet.CONNECT_ERROR:
                 raise ValueError('Unexpected CONNECT_ERROR packet.')
